@@ -1057,17 +1057,21 @@ def extract_fragment(src, body, end, where, subs, rep):
     rep["adaptations"].append({"rule": "D9", "what": f"statement range from `{sd['from']['args'].strip()}` "
                                + (f"until `{sd['until']['args'].strip()}`" if "until" in sd else "to the end of the body")})
     txt = raw
-    if "drop" in sd and "print" in sd["drop"]["args"]:
+    if "drop" in sd and ("print" in sd["drop"]["args"] or "write" in sd["drop"]["args"]):
         toks = significant(tokenize(txt))
         edits = []
         k = 0
         n = 0
         while k < len(toks):
             t = toks[k]
-            if t.kind == "ident" and t.text in ("println", "print", "eprintln", "eprint") and k + 2 < len(toks) \
+            names = ("println", "print", "eprintln", "eprint") + (("write", "writeln") if "write" in sd["drop"]["args"] else ())
+            if t.kind == "ident" and t.text in names and k + 2 < len(toks) \
                     and toks[k + 1].text == "!" and toks[k + 2].text == "(":
                 c = match_close(toks, k + 2)
                 e = toks[c].e
+                if c + 1 < len(toks) and toks[c + 1].text == "?":
+                    c += 1
+                    e = toks[c].e
                 if c + 1 < len(toks) and toks[c + 1].text == ";":
                     e = toks[c + 1].e
                 edits.append((t.s, e - t.s))
